@@ -201,6 +201,8 @@ pub struct HookCfg {
     pub log_local: bool,
     /// do not identify bitmap words in the log (their addresses are not stable across reallocations)
     pub anon_atomics: bool,
+    /// let the scheduler switch right before a read(2)/write(2) reaches the kernel (a blocking call)
+    pub yield_sys: bool,
 }
 
 /// Payload of panics the simulator raises on purpose.
